@@ -227,12 +227,30 @@ def finish(pid, tier, level, results, t0, extra_cov=None, assumptions=None):
 
 # ------------------------------------------------------------------------------------------------
 # per-property plans
+def secondary_build_failure(pid, config, err):
+    """a secondary configuration (ovf / nosimd / nounroll) that stops compiling while the main one builds"""
+    errs = [l for l in err.splitlines() if l.startswith("error")]
+    return dict(sig="%s:%s:does-not-build" % (pid.lower(), config), detail="build configuration %s no longer compiles: %s" % (config, (errs[0] if errs else err[-300:])),
+                replay=dict(config=config, features=CONFIGS[config]["features"]), count=1)
+
+
 def simple(pid, level, sub, configs_quick, configs_thorough=None):
     def run(tier):
         t0 = time.time()
         selftest()
         cfgs = configs_quick if tier == "quick" else (configs_thorough or configs_quick)
-        results = [run_engine(c, [sub, "--tier", tier], "%s-%s-%s" % (pid, tier, c), timeout=(900 if tier == "quick" else 6 * 3600)) for c in cfgs]
+        results = []
+        for c in cfgs:
+            try:
+                build(c)
+            except Machinery as e:
+                if c == cfgs[0]:
+                    raise
+                # the main configuration builds, this one does not: the property quantifies over it
+                results.append(dict(config=c, evaluations=0, distinct_nontrivial=0, exhaustive=False, rule="", samples=[],
+                                    violations=[secondary_build_failure(pid, c, str(e))]))
+                continue
+            results.append(run_engine(c, [sub, "--tier", tier], "%s-%s-%s" % (pid, tier, c), timeout=(900 if tier == "quick" else 6 * 3600)))
         return finish(pid, tier, level, results, t0)
     return run
 
@@ -416,11 +434,18 @@ def plan_c20(tier):
             cases = r["cases"]
         pts.append(dict(features=fs, fingerprint=r.get("fingerprint"), cases=r.get("cases")))
     # threefish no_unroll selects an implementation too: C09's domain on that build
-    r9 = run_engine("nounroll", ["c09", "--tier", "quick"], "C20-c09-nounroll")
-    for v in r9.get("violations", []):
-        viol.append(dict(v, sig="c20:no_unroll:" + v["sig"]))
+    r9 = dict(evaluations=0)
+    try:
+        build("nounroll")
+        for sub in ["c09", "c10"]:
+            r = run_engine("nounroll", [sub, "--tier", "quick"], "C20-%s-nounroll" % sub)
+            r9["evaluations"] += r["evaluations"]
+            for v in r.get("violations", []):
+                viol.append(dict(v, sig="c20:no_unroll:" + v["sig"]))
+    except Machinery as e:
+        viol.append(secondary_build_failure("C20", "nounroll", str(e)))
     res = dict(config="lattice", evaluations=nbuilds + total + r9["evaluations"], distinct_nontrivial=nbuilds + len(pts), exhaustive=True, violations=viol, wall_s=time.time() - t0,
-               rule="(1) for each of the 9 workspace packages the declared features (cargo metadata, incl. the implicit features of optional dependencies, 'default' excluded) are read and EVERY subset is built with cargo check --lib --no-default-features --features <subset> (minimal failing sets are reported); (2) the probe of C03 is built with %s of the implementation-selecting features {chacha std/no_simd/simd, blake std, jh std, ppv-lite86 std/no_simd/simd} and its fingerprint must equal the all-std fingerprint; (3) Threefish with no_unroll runs C09's domain against the model. distinct_nontrivial = lattice points built + probe points run." % ("every subset (256)" if tier == "thorough" else "8 chosen subsets"),
+               rule="(1) for each of the 9 workspace packages the declared features (cargo metadata, incl. the implicit features of optional dependencies, 'default' excluded) are read and EVERY subset is built with cargo check --lib --no-default-features --features <subset> (minimal failing sets are reported); (2) the probe of C03 is built with %s of the implementation-selecting features {chacha std/no_simd/simd, blake std, jh std, ppv-lite86 std/no_simd/simd} and its fingerprint must equal the all-std fingerprint; (3) Threefish with no_unroll runs C09's and C10's domains against the model. distinct_nontrivial = lattice points built + probe points run." % ("every subset (256)" if tier == "thorough" else "8 chosen subsets"),
                samples=lattice[:2] + lattice[-2:] + pts[:2], extra=dict(lattice_builds=nbuilds, lattice=lattice, probe_points=pts, reference_fingerprint=ref_fp, c09_no_unroll_evaluations=r9["evaluations"]),
                assumptions=["stable toolchain and x86-64 target of this sandbox only", "supersets of a failing minimal feature set are attributed to it"])
     return finish("C20", tier, "exploration", [res], t0)
@@ -434,13 +459,13 @@ PLANS = {
     "C01": simple("C01", "exploration", "c01", ["rel"], ["rel", "ovf"]),
     "C02": simple("C02", "model_checking", "c02", ["rel", "ovf"], ["rel", "ovf", "dev"]),
     "C03": plan_c03,
-    "C04": simple("C04", "exploration", "c04", ["rel"], ["rel", "nosimd"]),
-    "C05": simple("C05", "exploration", "c05", ["rel"], ["rel", "nounroll"]),
-    "C06": simple("C06", "exploration", "c06", ["rel"], ["rel", "nosimd"]),
-    "C07": simple("C07", "exploration", "c07", ["rel"]),
-    "C08": simple("C08", "model_checking", "c08", ["rel"], ["rel", "ovf"]),
-    "C09": simple("C09", "exploration", "c09", ["rel", "nounroll"]),
-    "C10": simple("C10", "exploration", "c10", ["rel", "nounroll"]),
+    "C04": simple("C04", "exploration", "c04", ["rel", "ovf"], ["rel", "ovf", "nosimd"]),
+    "C05": simple("C05", "exploration", "c05", ["rel", "ovf"], ["rel", "ovf", "nounroll"]),
+    "C06": simple("C06", "exploration", "c06", ["rel", "ovf", "nosimd"]),
+    "C07": simple("C07", "exploration", "c07", ["rel", "ovf"]),
+    "C08": simple("C08", "model_checking", "c08", ["rel"], ["rel", "ovf", "nosimd"]),
+    "C09": simple("C09", "exploration", "c09", ["rel", "ovf", "nounroll"]),
+    "C10": simple("C10", "exploration", "c10", ["rel", "ovf", "nounroll"]),
     "C11": simple("C11", "model_checking", "c11", ["rel", "ovf"], ["rel", "ovf", "dev"]),
     "C12": simple("C12", "exploration", "c12", ["rel", "nosimd"]),
     "C13": simple("C13", "exploration", "c13", ["rel", "nosimd"]),
